@@ -464,3 +464,33 @@ PLANS["C20"] = dict(
         validate=dict(module="Trace_PluginInstall", cfg=trace_cfg()),
     )],
 )
+
+# ------------------------------------------------------------------ C17
+def c17_cfg(tier, seed, emit=True, waitdelay=1, bound=3, spec="PSpec", props=()):
+    cmds = '{"get-plugin-metadata", "describe-key", "generate-signature", "generate-envelope", "verify-signature"}' if tier == "thorough" else '{"get-plugin-metadata", "describe-key"}'
+    return mc_cfg(["BufferBounded", "BoundedReturn", "Inv_Emit"], consts=["Cmds = " + cmds, "Cap = 2", "Deadline = 2", f"WaitDelay = {waitdelay}", "HoldFor = 6", f"Bound = {bound}"],
+                  spec=spec, emit=emit, extra=[f"PROPERTY {p}" for p in props])
+
+
+PLANS["C17"] = dict(
+    level_text="Part A: the plugin process lifecycle (start, output buffered up to the cap per stream, exit, context expiry, kill, descendants "
+               "holding the pipes, the host's bounded wait, return) is a timed state machine; TLC checks over all plugin plans that the buffers "
+               "never exceed the cap, that the call returns within the bound after the deadline and (under fairness) always returns; a model "
+               "without the bounded wait must violate the bound. Part B: the classification of a finished call is a pure function checked "
+               "against the statement by ASSUMEs over the whole reply table; every row (command x exit code x stdout kind x stderr kind, and "
+               "timing rows: slower than the deadline, descendants holding the pipes) is executed with generated /bin/sh plugins through the "
+               "real CLIPlugin, observing the typed error, the delay after the deadline and the peak memory of the host.",
+    level_note="Trusted: TLC, /bin/sh, the kernel's pipe semantics. The bound checked on real runs is 6 s after a 400 ms deadline against "
+               "descendants holding the pipes until released; peak RSS of the host child process is bounded by 2 x cap + 160 MiB.",
+    rule="cases = reply rows and timing rows of MC_PluginProc_C17; non-trivial = the expected class is not plain success",
+    exhaustive=True,
+    phases=[
+        dict(name="lifecycle-live", mc=dict(module="MC_PluginProc_C17", cfg=lambda tier, seed: c17_cfg(tier, seed, emit=False, spec="PFair", props=("EventuallyReturns",)))),
+        dict(name="mutant-no-waitdelay", mc=dict(module="MC_PluginProc_C17", cfg=lambda tier, seed: c17_cfg(tier, seed, emit=False, waitdelay=100), expect_violation="BoundedReturn")),
+        dict(name="rows",
+             gen=dict(module="MC_PluginProc_C17", cfg=c17_cfg, select=take_all),
+             drive=dict(driver="pluginproc"),
+             validate=dict(module="Trace_PluginProc", cfg=cfg_lines("SPECIFICATION Spec", 'CONSTANT TraceFile = "trace.ndjson"', "CONSTANT Cap = 2", "CONSTANT Deadline = 2",
+                                                                    "CONSTANT WaitDelay = 1", "CONSTANT HoldFor = 6", "CONSTANT Bound = 3", "POSTCONDITION AllConsumed", "CHECK_DEADLOCK FALSE"))),
+    ],
+)
